@@ -1002,6 +1002,32 @@ pub fn run(ctx: &Ctx) -> (Report, PropertyMeta) {
     report.exhaustive_parts.push(format!("proxy(ROUTER, DEALER): {} odd messages (1..4 frames, identity-like / empty / arbitrary first frame) from either side", pc.len()));
     report.merge(r);
 
+    {
+        // real transports, one thread (see C17): hostile / truncated handshakes left open
+        use crate::props::c20::{StallCase, Staller, Then};
+        use crate::realnet::Transport;
+        let mut netctx = ctx.clone();
+        netctx.threads = 1;
+        let mut nc = vec![];
+        for kind in [Kind::Pull, Kind::Router, Kind::Pub, Kind::Rep] {
+            for transport in [Transport::TcpV4, Transport::Ipc] {
+                for st in [
+                    Staller { offset: 0, then: Then::Hold },
+                    Staller { offset: 11, then: Then::Hold },
+                    Staller { offset: 70, then: Then::Hold },
+                    Staller { offset: 5, then: Then::Garbage },
+                    Staller { offset: 0, then: Then::Huge },
+                    Staller { offset: 1, then: Then::Huge },
+                ] {
+                    nc.push(StallCase { kind, transport, stallers: vec![st] });
+                }
+            }
+        }
+        let r = run_cases(&netctx, "net", &nc, net_outcome);
+        report.exhaustive_parts.push(format!("real TCP and IPC endpoints of PULL/ROUTER/PUB/REP: a client leaves a truncated greeting / truncated READY / garbage / an announced 2^50-byte frame open while an established peer exchanges and new peers connect: {} cases", nc.len()));
+        report.merge(r);
+        crate::realnet::cleanup_scratch();
+    }
     if t == Tier::Thorough {
         crate::fuzzing::campaign(ctx, &mut report, "hostile", 420);
     }
@@ -1014,12 +1040,13 @@ pub fn run(ctx: &Ctx) -> (Report, PropertyMeta) {
     health_abs(&mut report, "more-flood>=64", 200);
     health_abs(&mut report, "admitted", 500);
     health_abs(&mut report, "proxy-one-frame-message", 6);
+    health_abs(&mut report, "hostile-handshake-left-open-on-a-real-transport", 40);
 
     let _ = streams::catalogue_small;
     let meta = PropertyMeta {
         level: "fault_enumeration",
         rule: format!(
-            "hostile byte streams: exhaustive strings of length <= {} over an 8-symbol flag/size alphabet after a valid greeting; catalogue of malformed greetings, malformed command bodies (lengths pointing past the frame, non-UTF-8 names, unknown names) in short and long encodings, bare long-frame headers declaring 2^17..2^64-1 bytes, floods of up to {} MORE frames delivered in 8 KiB reads; proptest structure-aware mutations of valid streams (truncate, overwrite size fields with boundary values, OR flag bits, replace command bodies, insert floods, corrupt bytes) and random bytes. Each fed to the real framed reader on a 256 KiB-stack thread under a counting allocator, and as greeting / READY / traffic of a real attach to all 9 socket types with the application calling recv; odd messages forwarded by proxy(). Oracle: no panic, no abort/stack overflow (supervising parent), peak heap growth <= 256 KiB + 128 x bytes fed, no single allocation request above 64 KiB + 64 x bytes fed (hard stop at 1 GiB), sockets settle, and a healthy second connection still completes a round trip. Non-trivial = stream passes the greeting check and contains a command frame, a long size or >= 64 MORE frames; distinct by bytes",
+            "hostile byte streams: exhaustive strings of length <= {} over an 8-symbol flag/size alphabet after a valid greeting; catalogue of malformed greetings, malformed command bodies (lengths pointing past the frame, non-UTF-8 names, unknown names) in short and long encodings, bare long-frame headers declaring 2^17..2^64-1 bytes, floods of up to {} MORE frames delivered in 8 KiB reads; proptest structure-aware mutations of valid streams (truncate, overwrite size fields with boundary values, OR flag bits, replace command bodies, insert floods, corrupt bytes) and random bytes. Each fed to the real framed reader on a 256 KiB-stack thread under a counting allocator, and as greeting / READY / traffic of a real attach to all 9 socket types with the application calling recv; odd messages forwarded by proxy(). Oracle: no panic, no abort/stack overflow (supervising parent), peak heap growth <= 256 KiB + 128 x bytes fed, no single allocation request above 64 KiB + 64 x bytes fed (hard stop at 1 GiB), sockets settle, and a healthy second connection still completes a round trip; on real TCP and IPC endpoints a hostile or truncated handshake left open must not keep an established peer from exchanging nor new peers from connecting. Non-trivial = stream passes the greeting check and contains a command frame, a long size or >= 64 MORE frames; distinct by bytes",
             l, flood_max
         ),
         assumptions: vec![
@@ -1029,6 +1056,19 @@ pub fn run(ctx: &Ctx) -> (Report, PropertyMeta) {
         exhaustive: false,
     };
     (report, meta)
+}
+
+/// "Other connections of the same socket keep working" on the REAL transports: a peer that
+/// leaves an incomplete / hostile handshake open on a bound TCP or IPC endpoint, while an
+/// established peer keeps exchanging and new well-behaved peers connect (the scenario machinery
+/// is C20's; a failure is this property's when the hostile bytes are what C03 quantifies over).
+pub fn net_outcome(c: &crate::props::c20::StallCase) -> Outcome {
+    let mut o = crate::props::c20::stall_outcome(c);
+    for f in o.failures.iter_mut() {
+        f.sig = format!("C03/real-transport/{}", f.sig.trim_start_matches("C20/"));
+    }
+    o.classes = vec!["hostile-handshake-left-open-on-a-real-transport".into()];
+    o
 }
 
 pub fn replay(ctx: &Ctx, kind: &str, case: &Value) -> Vec<Failure> {
@@ -1047,6 +1087,7 @@ pub fn replay(ctx: &Ctx, kind: &str, case: &Value) -> Vec<Failure> {
                 "hostile_stage" => parse_case::<HostileStageCase>(&case).map(|c| hostile_stage_outcome(&c).failures),
                 "others" => parse_case::<OthersCase>(&case).map(|c| others_outcome(&c).failures),
                 "proxy" => parse_case::<ProxyCase>(&case).map(|c| proxy_outcome(&c).failures),
+                "net" => parse_case::<crate::props::c20::StallCase>(&case).map(|c| net_outcome(&c).failures),
                 "alphabet_block" => Ok(replay_alphabet_block(&ctx, &case)),
                 _ => Err(vec![Failure::new("replay/unknown-kind", kind.to_string())]),
             }
